@@ -132,9 +132,27 @@ def dist_scaling(vc, cfg):
         seen["getP"] = dict(relative=relative, bounded=bounded, remove_zero=remove_zero)
         return Pg
 
+    # ghost: mem[r] > 0  <=>  the chromaticity of (non-zero) row r lies in the chromatic gamut -- the contract of in_hull(normalized=True)
+    # (C03 / in_hull.normalized below); for an all-zero row, which has no chromaticity, its answer is unspecified (arbitrary here)
+    mem = vc.array("inside_ghost", (m,))
+    if inside:
+        for r in range(m):
+            if r != zero_row:
+                vc.assume(vc.gt(mem[r], 0))
+    else:
+        vc.assume(vc.any_(vc.le(mem[r], 0) for r in range(m) if r != zero_row))
+
     def est_in_hull(B_=None, relative=True, normalized=False):
+        from pyvc.sym import to_symarray
+
         seen["in_hull"] = dict(relative=relative, normalized=normalized)
-        return np.array([inside] * m)
+        Ba = np.asarray(B_)  # a symbolic row mask is concretised here (forks; the zero pattern of B is fixed by the precondition)
+        rows = [next((r for r in range(m) if Ba[i, 0] is B[r, 0]), None) for i in range(Ba.shape[0])]
+        seen["in_hull_rows"] = rows
+        res = np.empty(len(rows), dtype=object)
+        for i, r in enumerate(rows):
+            res[i] = vc.gt(mem[r], 0) if r is not None else vc.gt(vc.real(f"inside_unknown_row{i}"), 0)
+        return to_symarray(res)
 
     def mod_in_hull(P_, B_, bounded=True, **kw):
         seen["neutral_test"] = True
@@ -164,6 +182,11 @@ def dist_scaling(vc, cfg):
             vc.assume(vc.gt(al[r], 0))
             for f in range(Eq.shape[0]):
                 vc.assume(vc.le(sum(Eq[f, k] * (al[r] * Bq[r, k]) for k in range(dim)) + Eq[f, dim], 0))
+        # link between the two callee contracts (same chromatic gamut around the same neutral point): a non-zero row is inside
+        # iff its boundary multiple is at least 1
+        for r in range(Bq.shape[0]):
+            if r != zero_row:
+                vc.assume(vc.and_(vc.implies(vc.gt(mem[r], 0), vc.ge(al[r], 1)), vc.implies(vc.ge(al[r], 1), vc.gt(mem[r], 0))))
         seen["alpha"] = (Bq, Eq, al)
         return al
 
@@ -193,7 +216,10 @@ def dist_scaling(vc, cfg):
     vc.prove("early membership test is chromatic and in the same capture space", seen.get("in_hull") == dict(relative=rel, normalized=True), detail=str(seen.get("in_hull")))
     vc.prove("caller-array-unmodified", vc.eq_arr(B, Bin))
     vc.prove("shape", tuple(out.shape) == (m, nf), detail=str(out.shape))
-    if inside:
+    early = seen.get("getP") is None
+    vc.prove("membership is asked for rows of the target set", all(r is not None for r in seen.get("in_hull_rows", [None])), detail=str(seen.get("in_hull_rows")))
+    vc.prove("unchanged copy is returned iff every non-zero row is chromatically inside", early == bool(inside), detail=f"early return {early}, all non-zero rows inside {inside}")
+    if early:
         vc.prove("already inside: equal copy returned", vc.eq_arr(out, B) and out is not B and not np.shares_memory(out, B))
         return
     vc.prove("gamut points requested without the zero point, bounded, same capture space", seen.get("getP") == dict(relative=rel, bounded=True, remove_zero=True), detail=str(seen.get("getP")))
@@ -235,6 +261,7 @@ def dist_scaling(vc, cfg):
             vc.prove(f"row[{r}] is the inverse reduction with the original total", vc.all_(vc.eq(out[r, j], R[r, j]) for j in range(nf)))
             vc.prove(f"total capture kept[{r}]", vc.eq(sum(out[r, j] for j in range(nf)), sum(B[r, j] for j in range(nf))))
     vc.prove("alpha > 0", vc.gt(alpha, 0))
+    vc.prove("saturations are contracted, never expanded: alpha <= 1", vc.le(alpha, 1))
     vc.canary("alpha is 1", vc.eq(alpha, 1))
 
 
@@ -325,8 +352,8 @@ def _dist_native(vc, cfg, est, Pg, B, narg, neutral):
         vc.assume(False, "neutral point not inside this random chromatic gamut")
     est._get_P_from_A = lambda relative=True, bounded=None, remove_zero=False: Pg
     rows = [r for r in range(m) if r != zero_row]
+    # independent oracle for "every non-zero row is chromatically inside"; the estimator's own in_hull(normalized=True) is NOT replaced
     inside_real = bool((Delaunay(bP).find_simplex(Bc.barycentric_dim_reduction(B[rows])) >= 0).all())
-    est.in_hull = lambda B_=None, relative=True, normalized=False: np.array([inside_real] * m)
     Bin = B.copy()
     o = vc.call(est.hull_dist_scaling, B, neutral_point=narg, relative=cfg["relative"])
     if not vc.returns("terminates-normally", o):
@@ -341,6 +368,12 @@ def _dist_native(vc, cfg, est, Pg, B, narg, neutral):
     oi, oo = (Bc.barycentric_dim_reduction(B[rows]) - center).ravel(), (bo - center).ravel()
     k = int(np.argmax(np.abs(oi)))
     vc.prove("one common factor (native)", bool(np.allclose(oo * oi[k], oo[k] * oi, atol=1e-7)))
+    sat_in = np.linalg.norm(Bc.barycentric_dim_reduction(B[rows]) - center, axis=1)
+    sat_out = np.linalg.norm(bo - center, axis=1)
+    vc.prove("saturations are contracted, never expanded (native, 1e-7)", bool(np.all(sat_out <= sat_in * (1 + 1e-7) + 1e-9)),
+             detail=f"saturation before {sat_in} after {sat_out}")
+    if inside_real:
+        vc.prove("every chromaticity already inside: targets returned unchanged (native)", bool(np.allclose(out, B, atol=1e-9)), detail=f"in {B.tolist()} out {out.tolist()}")
 
 
 def chromatic_membership(vc, cfg):
@@ -398,7 +431,9 @@ def _l1_cfgs(tier):
 
 def _dist_cfgs(tier):
     out = [dict(nf=3, npts=3, m=1, relative=True, neutral="default", inside=False), dict(nf=3, npts=3, m=2, relative=False, neutral="given", inside=False),
-           dict(nf=3, npts=3, m=2, relative=True, neutral="default", inside=False, zero_row=1), dict(nf=3, npts=3, m=2, relative=False, neutral="default", inside=True)]
+           dict(nf=3, npts=3, m=2, relative=True, neutral="default", inside=False, zero_row=1), dict(nf=3, npts=3, m=2, relative=False, neutral="default", inside=True),
+           # every chromaticity inside + an all-zero row (which has no chromaticity): must be returned unchanged
+           dict(nf=3, npts=3, m=2, relative=True, neutral="default", inside=True, zero_row=1), dict(nf=2, npts=2, m=2, relative=True, neutral="default", inside=True, zero_row=0)]
     out += [dict(nf=2, npts=2, m=2, relative=True, neutral="default", inside=False), dict(nf=2, npts=3, m=1, relative=False, neutral="given", inside=False)]
     if tier != "quick":
         out += [dict(nf=3, npts=4, m=2, relative=True, neutral="given", inside=False, nfac=4), dict(nf=4, npts=4, m=1, relative=True, neutral="default", inside=False)]
@@ -413,6 +448,9 @@ FE = ["dreye.api.estimator.ReceptorEstimator." + n for n in ("hull_l1_scaling", 
 CONTRACTS = [
     Contract(P, "hull_l1_scaling", l1_scaling, _l1_cfgs, FE[:1] + ["dreye.api.utils.apply_linear_transform"], gens=GENS, native_samples=2, doc=l1_scaling.__doc__),
     Contract(P, "hull_dist_scaling", dist_scaling, _dist_cfgs, FE[1:2] + ["dreye.api.project.alpha_for_B_with_P", "dreye.api.barycentric.barycentric_dim_reduction", "dreye.api.barycentric.cartesian_to_barycentric"],
-             gens=GENS, native_samples=3, rtol=1e-6, atol=1e-7, timeout_s=60, doc=dist_scaling.__doc__),
+             gens=GENS, native_samples=3, rtol=1e-6, atol=1e-7, timeout_s=60, doc=dist_scaling.__doc__,
+             # regression input of the repaired defect (an accompanying all-zero row made an inside target set be EXPANDED)
+             pinned=[(dict(nf=3, npts=4, m=2, relative=True, neutral="default", inside=True, zero_row=1, pinned="zero-row-inside"),
+                      {"Pg": [[1.0, 0.2, 0.05], [0.2, 1.0, 0.3], [0.05, 0.3, 1.0], [0.6, 0.7, 0.1]], "B": [[1.0, 1.1, 0.9], [0.0, 0.0, 0.0]]})]),
     Contract(P, "in_hull.normalized", chromatic_membership, _chrom_cfgs, FE[2:], gens=GENS, native_samples=2, doc=chromatic_membership.__doc__),
 ]
